@@ -566,3 +566,32 @@ Definition elab_stmt (sqlite : bool) (s : stmt) : list item :=
 
 Definition render_stmt (isf : string -> bool) (m : option style) (sqlite : bool) (s : stmt) (st : pstate) : tres :=
   render_items isf m (elab_stmt sqlite s) st.
+
+(* ------------------------------------------------------------------------------------------------ *)
+(* vocabulary of the property                                                                         *)
+(* ------------------------------------------------------------------------------------------------ *)
+(* the key under which a dict class files entry n ("" for the list classes) *)
+Definition key_at (sty : style) (n : nat) : string := if is_dict sty then param_key sty (ph_text sty n) else "".
+(* a collector that has only been filled by renderings (in particular the empty one): entry n has the key of index n *)
+Definition fresh_keys (sty : style) (st : pstate) : Prop := map fst st = map (key_at sty) (seq 0 (List.length st)).
+
+(* token-for-token agreement of the parameterised text [tp] with the inline text [ti]: equal tokens, except that a
+   collector placeholder stands -- by position for the list classes, by name for the dict classes -- for what the
+   collector stores for the inline literal at that position (a literal satisfying [chk]) *)
+Definition aligned (isf : string -> bool) (chk : lit -> bool) (sty : style) (st' : pstate) (tp ti : list tok) : Prop :=
+  Forall2 (fun p i => match p with
+                      | KAuto n txt => exists l t, i = KLit l t /\ chk l = true /\ resolve sty st' n txt = Some (coll isf l)
+                      | _ => p = i
+                      end) tp ti.
+
+(* the part of the property that concerns counting, order and naming; [st] is the collector before the rendering *)
+Definition bookkeeping (sty : style) (st : pstate) (tp : list tok) (st' : pstate) : Prop :=
+     List.length st' = List.length st + count_auto tp                                  (* one entry per placeholder *)
+  /\ firstn (List.length st) st' = st                                                  (* earlier entries untouched *)
+  /\ autos tp = map (fun n => (n, ph_text sty n)) (seq (List.length st) (count_auto tp)) (* k-th placeholder: written for entry k *)
+  /\ (forall n kv, nth_error st' n = Some kv -> resolve sty st' n (ph_text sty n) = Some (snd kv))  (* ... and resolves to it *)
+  /\ (is_dict sty = true -> NoDup (map fst st'))                                       (* no key assigned twice *)
+  /\ (match sty with Qmark | Format => True | _ => NoDup (map snd (autos tp)) end).    (* numbered / named texts are distinct *)
+
+Definition stmt_ok (chk : lit -> bool) (sqlite : bool) (s : stmt) : bool :=
+  forallb (item_ok chk) (elab_stmt sqlite s).
